@@ -32,6 +32,8 @@ type c02Case struct {
 	Files    map[string]string `json:"files,omitempty"`
 	MustFail string            `json:"must_fail,omitempty"` // structural mistake kind: err must be non-nil
 	Base     string            `json:"base,omitempty"`      // structural: the valid program the mistake was built on (premise: it parses)
+	// OpenFails: a path (the template itself or a referenced one) the loader reports as existing but cannot open
+	OpenFails string `json:"open_fails,omitempty"`
 }
 
 var c02Dict = []string{
@@ -235,6 +237,13 @@ func genC02(t *rapid.T) c02Case {
 			c.Src = L + `"a"` + R + "\n" + L + `import "base.jet"` + R + p
 		}
 	}
+	if c.MustFail == "" && rapid.IntRange(0, 9).Draw(t, "openFails") == 0 {
+		if len(c.Files) > 0 {
+			c.OpenFails = rapid.SampledFrom([]string{"/base.jet", "/main.jet", "/cyc.jet"}).Draw(t, "openFailsPath")
+		} else if c.Mode == "get" {
+			c.OpenFails = "/main.jet"
+		}
+	}
 	return c
 }
 
@@ -246,9 +255,12 @@ func judgeC02(c c02Case) (v core.Verdict) {
 		v.Discard = "too-long"
 		return
 	}
-	resp, crash, hang, infra := isoCall(isoReq{Op: c.Mode, Name: name, Src: c.Src, Delims: c.Delims, Files: c.Files})
+	resp, crash, hang, infra := isoCall(isoReq{Op: c.Mode, Name: name, Src: c.Src, Delims: c.Delims, Files: c.Files, OpenFails: c.OpenFails})
 	if infra != nil {
 		panic(infra)
+	}
+	if c.OpenFails != "" {
+		v.Label("loader-open-fails:" + c.OpenFails)
 	}
 	hasL := strings.Contains(c.Src, c.Delims.L())
 	v.NonTrivial = hasL && !strings.HasPrefix(c.Gen, "valid")
@@ -278,6 +290,13 @@ func judgeC02(c c02Case) (v core.Verdict) {
 	}
 	if resp.LexerLeak {
 		v.Failf("%s left a lexer goroutine running: %s", desc, clip(resp.LeakStacks))
+		return
+	}
+	if c.OpenFails != "" {
+		// an I/O failure is an error like any other; its wording (which file, which line) is not laid down
+		if c.OpenFails == name && c.Mode == "get" && !resp.HasErr {
+			v.Failf("%s: the template cannot be opened, yet GetTemplate reported no error", desc)
+		}
 		return
 	}
 	if resp.HasErr {
